@@ -96,6 +96,14 @@ type Run struct {
 	or                  OracleSet
 	cur                 recOutcome
 	reloadPending       bool
+	reloadOwed          bool // C11: a failed update/reload is being retried
+	curArrival          time.Time
+	lastArrival         map[bool]time.Time // by kind (partial or full): when the previous one reached the worker
+	lastFailed          bool
+	lastBehind          map[bool]bool
+	lastFinish          time.Time
+	curFullItem         bool
+	thisFullItem        bool
 	startupReloads      int
 	startupCmds         int
 	lastFaultAt         time.Time
